@@ -250,6 +250,19 @@ def gen_C17(w, tier):
     for _ in range(30 if not big else 300):          # prefixes / suffixes of one another
         a = rb(20)
         tuples.append((a[:5], a[5:], a[:10], a[10:], a, a[:3]))
+    # field boundaries moved across a separator-like byte string (every short literal of the source, and the usual
+    # separators): consecutive calls whose (pw, idA, idB) agree once joined with that separator must still be
+    # computed independently of one another and from the three fields separately
+    seps = [b":", b"|", b",", b"/", b";", b".", b"-", b"_", b" ", b"\x00", b"\n", b"=", b"&", b"+", b"::", b"\x00\x00"]
+    seps += [b_ for b_ in HARVEST_BYTES if 0 < len(b_) <= 3 and b_ not in seps][:12]
+    for sep in seps:
+        X_, Y_, K_ = rb(32), rb(32), rb(32)
+        tuples.append((b"alice" + sep + b"x", b"bob", X_, Y_, K_, b"pw"))
+        tuples.append((b"alice", b"x" + sep + b"bob", X_, Y_, K_, b"pw"))
+        tuples.append((b"x", b"bob", X_, Y_, K_, b"pw" + sep + b"alice"))
+        tuples.append((b"alice" + sep + b"x", b"bob", X_, Y_, K_, b"pw"))
+        tuples.append((b"", b"alice" + sep + b"x" + sep + b"bob", X_, Y_, K_, b"pw"))
+        tuples.append((b"alice" + sep + b"x" + sep + b"bob", b"", X_, Y_, K_, b"pw"))
     for t in tuples:
         i = len(sc.lines)
         sc.do("final %s" % " ".join(hx(x) for x in t))
@@ -288,6 +301,13 @@ def gen_C17(w, tier):
             sc.do("finalsym %s" % " ".join(hx(x) for x in (idS, m1b, m2, K, pw)))
             if m1b != m2 or True:
                 rec.append((k, (i, "differs") if sorted([m1b, m2]) != sorted([m1, m2]) else (i, "equal"), "change"))
+    for sep in seps:
+        m1, m2, K_ = rb(33), rb(33), rb(33)
+        for (idS, pw) in ((b"room" + sep + b"x", b"pw"), (b"x", b"pw" + sep + b"room"), (b"room", b"x" + sep + b"pw"), (b"room" + sep + b"x", b"pw")):
+            i = len(sc.lines)
+            sc.do("finalsym %s" % " ".join(hx(x) for x in (idS, m1, m2, K_, pw)))
+            lo, hi = sorted([m1, m2])
+            rec.append((i, "ok " + hx(H(H(pw) + H(idS) + lo + hi + K_)), "finalsym"))
     sc.meta["rec"] = rec
 
     def pred(io, sc):
